@@ -81,7 +81,11 @@ def gen_leaf(rng, t, shape, derivs=True, axis_len=3, mask=None, nonneg=False):
     vals, alt = [], []
     for i in range(n):
         for _ in range(isz):
-            if t in ('M2', 'M3', 'Y'):
+            if t == 'Q':
+                vis = rng.choice(F_VIS)
+                a = rng.choice(F_HID_BENIGN + F_HID_ADV)
+                b = rng.choice(F_HID_ADV)
+            elif t in ('M2', 'M3', 'Y'):
                 vis = rng.choice(F_VIS)
                 a = rng.choice(F_HID_BENIGN + [0., -1.])
                 b = rng.choice(X_HID)
@@ -579,6 +583,47 @@ def gen_cases(rng, tier):
                     if t == 'F' and rng.random() < 0.4:
                         leaf['derivs']['t'] = leaf_of(smooth(-1., 3., 1), list(bits_))
                     cases.append(mk_case(['pickle_d', [digits, ref], ['v', 0]], [leaf], 'pickle_d:%s' % (ref if isinstance(ref, str) else 'num')))
+    # 1f. operations whose LIMITS / COEFFICIENTS are masked operands themselves: Vector.clip_component, Pair.clip2d, Scalar.clip
+    #     with Scalar limits (entirely masked by the single value True, by an array, or partially; hidden limits on both sides
+    #     of the data), mask_where_between/outside/ge with Scalar limits, and the multi-output Scalar.solve_quadratic with and
+    #     without include_antimask (all returned items are observed)
+    def limit(g, shape, t='F'):
+        r = rng.random()
+        sh = [] if rng.random() < 0.5 else list(shape)
+        n = int(np.prod(sh, dtype=int))
+        if r < 0.4:
+            m = ([True] * n, 'T')
+        elif r < 0.6:
+            m = ([True] * n, [True] * n if sh else 'T')
+        else:
+            m = None
+        g.env.append(gen_leaf(rng, t, sh, derivs=False, mask=m))
+        return ['v', len(g.env) - 1]
+    for _ in range(10 if thorough else 2):
+        for shape in SHAPES:
+            for t in ('V', 'Q'):
+                for name in ('clipc_lu', 'clipc_l', 'clipc_u'):
+                    g = Gen(rng, shape, derivs=False)
+                    x, _, _ = g.leaf(t, list(shape))
+                    ops = [x] + [limit(g, shape) for _ in range(2 if name == 'clipc_lu' else 1)]
+                    cases.append(mk_case([name, [rng.randrange(O.ITEM[t][0]), rng.random() < 0.5]] + ops, g.env, 'lim:' + name))
+            for name in ('clip2d_lu', 'clip2d_l', 'clip2d_u'):
+                g = Gen(rng, shape, derivs=False)
+                x, _, _ = g.leaf('Q', list(shape))
+                ops = [x] + [limit(g, shape, 'Q') for _ in range(2 if name == 'clip2d_lu' else 1)]
+                cases.append(mk_case([name, [rng.random() < 0.5]] + ops, g.env, 'lim:' + name))
+            for name, nlim, params in (('clip_lu', 2, [rng.random() < 0.5, rng.random() < 0.5]), ('clip_l', 1, [rng.random() < 0.5]),
+                                       ('clip_u', 1, [rng.random() < 0.5, rng.random() < 0.5]),
+                                       ('mw_between_q', 2, [rng.random() < 0.5, rng.random() < 0.5]),
+                                       ('mw_outside_q', 2, [rng.random() < 0.5, rng.random() < 0.5]), ('mw_ge_q', 1, [rng.random() < 0.5])):
+                g = Gen(rng, shape)
+                x, _, _ = g.leaf('F', list(shape))
+                ops = [x] + [limit(g, shape) for _ in range(nlim)]
+                cases.append(mk_case([name, params] + ops, g.env, 'lim:' + name))
+            for name in ('solve_quadratic_am', 'solve_quadratic_am', 'solve_quadratic_all'):
+                g = Gen(rng, shape, derivs=rng.random() < 0.3)
+                ops = [g.leaf('F')[0] for _ in range(3)]
+                cases.append(mk_case([name, []] + ops, g.env, 'multi:' + name))
     # 1b. the option values of the public element-wise and reducing methods
     for _ in range(8 if thorough else 2):
         for shape in SHAPES:
